@@ -7,7 +7,9 @@ import (
 	"fmt"
 	"reflect"
 	"sort"
+	"strings"
 	"testing"
+	"time"
 
 	"google.golang.org/grpc"
 	"pgregory.net/rapid"
@@ -149,7 +151,25 @@ func sameServiceInfo(a, b map[string]grpc.ServiceInfo) string {
 	return ""
 }
 
+// propC15: registry operations are plain function calls; one that does not come back (a lock never released) is a
+// failure of the history, not of the harness.
 func propC15(c c15Case) *Outcome {
+	var o *Outcome
+	if stall := guardFor(5*time.Second, "the history of registry operations", func() { o = propC15History(c) }); stall != "" {
+		return (&Outcome{NonTrivial: true}).failf("%s: %d operations (%s): %s", c.Target, len(c.Ops), c15OpsString(c), stall)
+	}
+	return o
+}
+
+func c15OpsString(c c15Case) string {
+	var parts []string
+	for _, op := range c.Ops {
+		parts = append(parts, op.Kind)
+	}
+	return strings.Join(parts, ",")
+}
+
+func propC15History(c c15Case) *Outcome {
 	o := &Outcome{}
 	o.class("target=%s", c.Target)
 	var hm grpchan.HandlerMap
